@@ -13,6 +13,7 @@ import NetaddrVerif.Model.Nmap
                                          the foreign parsers are the real models (`Nmap.realForeign .platform`)
     nmap_multi fuel [S,…]              → `[v,…]` + `!tag` if a spec failed; `fuel` bounds each spec (Nmap.iterNmapRanges)
     nmap_islice fuel [S,…]             → the same for `islice(iter_nmap_range(*specs), fuel)` (Nmap.isliceNmapRanges)
+    nmap_take fuel S                   → `list(islice(iter_nmap_range(S), fuel))` for EVERY fuel, 0 included (Nmap.isliceNmapRange)
     nmap_plan fuel S                   → iteration through `parsePlan` + `Plan.items` (must equal the `iter` of `nmap`) -/
 namespace NV.Driver.C17
 open NV NV.Proto
@@ -73,6 +74,10 @@ def handle (op : String) (args : List String) : Option String :=
       | .ok b => showBool b
       | .error e => showErr e
     pure (v ++ " " ++ showAddrs (Nmap.iterNmapRange F fuel s) showAddr)
+  | "nmap_take", [fuel, s] => do
+    let fuel ← fuel.toNat?
+    let s ← parseStr s
+    pure (showAddrs (Nmap.isliceNmapRange F fuel s) showAddr)
   | "nmap_plan", [fuel, s] => do
     let fuel ← fuel.toNat?
     let s ← parseStr s
